@@ -25,6 +25,66 @@ func runSpecials(w *world, rep *vevid.Report) {
 	sameTick(w, rep)
 	emptyMetaFlush(w, rep)
 	partialFields(w, rep)
+	unalignedFamilies(w, rep)
+}
+
+// unalignedFamilies: a query range that is aligned to the storage interval but not to the query interval, over two data
+// families, with points at the head and at the very end of each family (the query bucket that holds the last slots
+// of a family straddles the family boundary). Exhaustive over the non-empty subsets of five points (written in
+// time order) x {memory, flushed} x two ranges x intervals {20s, 1m, 5m} x the two multi-field select lists.
+func unalignedFamilies(w *world, rep *vevid.Report) {
+	type wp struct {
+		name string
+		t    int64
+	}
+	last := int64(familyMs/slotMs - 1)
+	pts := []wp{{"f1@20", s0 * slotMs}, {"f1@last", last * slotMs}, {"f2@0", familyMs}, {"f2@last-1", familyMs + (last-1)*slotMs}, {"f2@last", familyMs + last*slotMs}}
+	multi, _, _ := selectLists()
+	var menu []Query
+	for _, sl := range multi[:2] {
+		for _, r := range []int{mainRanges, mainRanges + 1} {
+			for _, iv := range []int{1, 2, 3} {
+				menu = append(menu, Query{Sels: sl, Range: r, Ivl: iv, GB: true})
+			}
+		}
+	}
+	for mask := 1; mask < 1<<len(pts); mask++ {
+		for _, after := range []string{"", "F"} {
+			if w.timeouts >= 3 {
+				return
+			}
+			if err := w.box.Flush(shardID, w.bothFamilies()); err != nil {
+				vevid.Fatal("special flush: %v", err)
+			}
+			w.flushedSinceOpen = true
+			w.seq++
+			metric := fmt.Sprintf("%su%d", w.prefix, w.seq)
+			m := newModel()
+			var names []string
+			k := 0
+			for i, p := range pts {
+				if mask&(1<<i) == 0 {
+					continue
+				}
+				w.newTick()
+				v := writeValues[k%len(writeValues)]
+				if err := w.writePoint(metric, "a", p.t, v, 0); err != nil {
+					vevid.Fatal("special write: %v", err)
+				}
+				w.lastCreate = fasttime.UnixNano()
+				m.write("a", p.t, v)
+				names = append(names, p.name)
+				k++
+			}
+			if after == "F" {
+				if err := w.box.Flush(shardID, w.bothFamilies()); err != nil {
+					vevid.Fatal("special flush: %v", err)
+				}
+				m.flush()
+			}
+			specialEvalMenu(w, rep, "unaligned-range-families", "unaligned-families/"+after, strings.Join(names, " ")+" "+after, m, metric, menu)
+		}
+	}
 }
 
 // partialFields: the rows of one series do not all carry the same fields, so table files (and memory databases)
@@ -157,7 +217,7 @@ func specialMenu() []Query {
 	multi, _, _ := selectLists()
 	var out []Query
 	for _, sl := range multi[:2] {
-		for r := range ranges {
+		for r := 0; r < mainRanges; r++ {
 			for _, iv := range []int{0, 2} {
 				out = append(out, Query{Sels: sl, Range: r, Ivl: iv, GB: true})
 			}
@@ -167,7 +227,11 @@ func specialMenu() []Query {
 }
 
 func specialEval(w *world, rep *vevid.Report, clause, scenario, history string, m *model, metric string) {
-	for _, q := range specialMenu() {
+	specialEvalMenu(w, rep, clause, scenario, history, m, metric, specialMenu())
+}
+
+func specialEvalMenu(w *world, rep *vevid.Report, clause, scenario, history string, m *model, metric string, menu []Query) {
+	for _, q := range menu {
 		rep.Evaluations++
 		exp := m.eval(q)
 		got, err := w.query(q, metric)
